@@ -34,6 +34,14 @@ func Init(job string) (*LQClient, error) {
 		return nil, err
 	}
 
+	// Hand back the URLs that a previous run of this job had claimed but not finished (the run was
+	// killed, or stopped while they were buffered or waiting for their finish acknowledgement):
+	// nothing else would ever make them FRESH again and they would never be crawled.
+	if _, err := dbWrite.Exec(`UPDATE urls SET status = 'FRESH', timestamp = strftime('%s', 'now') WHERE status = 'CLAIMED'`); err != nil {
+		logger.Error("error resetting claimed URLs", "err", err.Error(), "func", "lq.Init")
+		return nil, err
+	}
+
 	dbWriteSqlc := sqlc_model.New(dbWrite)
 
 	return &LQClient{
